@@ -77,6 +77,8 @@ prop("C10", "exploration",
           "thorough": {"checks": 600000, "shards": 16, "timeout": 1500}},
          {"test": "TestC10_Sequence", "quick": {"checks": 20000, "shards": 4, "timeout": 200},
           "thorough": {"checks": 200000, "shards": 16, "timeout": 1500}},
+         {"test": "TestC10_BatchOnWire", "quick": {"checks": 1500, "shards": 4, "timeout": 300},
+          "thorough": {"checks": 20000, "shards": 16, "timeout": 1500}},
          {"fuzz": "FuzzC10", "thorough": {"fuzztime": "90s", "workers": 8, "timeout": 400}},
      ],
      ["rows <= 65535 bytes and families <= 255 bytes (the format cannot carry more)"])
